@@ -92,6 +92,20 @@ CLAIMED = {
         "Timing under schedules is declined; API misuse after termination (calling handle_timer with a None deadline) is an assumption.",
         "DESIGN.md#c09",
     ),
+    "C06": (
+        "other",
+        "caller enumeration for get_frame and the stream-frame writers, structural normal form of the max_offset expression (sum/difference multiset), CFG dominance (clamp before frame construction; blocked test before every stream-naming writer), def-use of the credit charged, guard extraction for every writer of the peer's limits, complement check between the blocking and the releasing test",
+        "Decides on all paths that application stream data can leave only through one writer whose offset bound is min(connection credit left, per-stream limit) and is honoured by get_frame, that connection credit is charged by the highest-offset delta only and by nobody else, that the peer's limits only rise, that no frame naming a stream is written for a stream blocked by MAX_STREAMS, and that blocked streams are released by exactly the complementary test when the limit rises or the handshake completes.",
+        "The arithmetic of credit under loss/retransmission schedules is declined; limits installed by _parse_transport_parameters (initial values, 0-RTT remembered values) are exempt from the 'only rises' rule.",
+        "DESIGN.md#c06",
+    ),
+    "C07": (
+        "other",
+        "CFG dominance of the three receive-side limit tests over the receiver calls, strict-comparator and operand normal forms via guard atoms, effect pairing (charged amount = checked amount), whole-call-graph enumeration of growth operations on retained state reachable from receive_datagram (256 functions) with a directional size-test rule and a table of 20 reasoned exemptions whose supporting facts are themselves checked",
+        "Decides on all paths that stream-count, per-stream and connection limits (strict `>` against the advertised value) and the final-size tests precede acceptance in both handlers and in the receiver, that the charged amount is the checked amount, and that every one of the ~50 growth sites of peer-reachable retained state is bounded by a size test or by a documented construction (each exemption names the fact that bounds it).",
+        "Exact boundary behaviour after arbitrary histories of limit raises is declined; the exemption table is part of the rule (rules/c07.py:EXEMPT).",
+        "DESIGN.md#c07",
+    ),
 }
 
 NOT_APPLICABLE = {
